@@ -118,7 +118,12 @@ def sec_tables(rep):
                 M = lambda lab: op_atom(sy, lab)
                 with rebind(*binds(sy, beta)):
                     m = mk_manager(sy, pto, True, True, nf)
+                    before = {k: np.array(v, dtype=object).copy() for k, v in m.operators.items()}
+                    smap1 = split.sector_mapping(pto, m.operators, nf)
+                    # frame: the operator cache is shared by every kernel, point and observable of a
+                    # run -- building the tables must not write into it; a second request is answered alike
                     smap = split.sector_mapping(pto, m.operators, nf)
+                    unchanged = sorted(map(str, m.operators)) == sorted(map(str, before)) and all(np.shape(m.operators[k]) == np.shape(before[k]) and all(a is b for a, b in zip(np.asarray(m.operators[k], dtype=object).flat, before[k].flat)) for k in before)
                 exp = {}
                 if pto >= 1:
                     exp[(1, 1, 0)] = {(nsp, 0): M("P_qq_0"), (nsm, 0): M("P_qq_0"), (nsv, 0): M("P_qq_0"), (100, 100): M("P_qq_0"), (100, 21): M("P_qg_0"), (21, 100): 0, (21, 21): 0}
@@ -127,7 +132,12 @@ def sec_tables(rep):
                     exp[(2, 1, 1)] = {(nsp, 0): M("P_qq_0") - sy.b0, (nsm, 0): M("P_qq_0") - sy.b0, (nsv, 0): M("P_qq_0") - sy.b0, (100, 100): M("P_qq_0") - sy.b0, (100, 21): M("P_qg_0"), (21, 100): M("P_gq_0"), (21, 21): M("P_gg_0") - sy.b0}
                     ns2 = (M("P_qq_0^2") - sy.b0 * M("P_qq_0")) / 2
                     exp[(2, 2, 0)] = {(nsp, 0): ns2, (nsm, 0): ns2, (nsv, 0): ns2, (100, 100): (M("P_qq_0^2") + M("P_qg_0P_gq_0") - sy.b0 * M("P_qq_0")) / 2, (100, 21): (M("P_qq_0P_qg_0") + M("P_qg_0P_gg_0") - sy.b0 * M("P_qg_0")) / 2, (21, 100): 0, (21, 21): 0}
-                out = [("keys", sorted(smap), sorted(exp))]
+                out = [("keys", sorted(smap), sorted(exp)), ("frame: operator cache not written", unchanged, True), ("keys (first request)", sorted(smap1), sorted(exp))]
+                for k in exp:
+                    if k in smap1:
+                        for s_ in exp[k]:
+                            if s_ in smap1[k]:
+                                out.append((f"first request {k}/{s_}", smap1[k][s_][0, 0], exp[k][s_]))
                 for k in exp:
                     if k not in smap:
                         continue
@@ -183,7 +193,7 @@ def sec_tables(rep):
 PIDS = None
 
 
-def run_compute_local(sy, pto, ren, fact, nf, kernel_type, channel="non-singlet"):
+def run_compute_local(sy, pto, ren, fact, nf, kernel_type, channel="non-singlet", manager=None):
     """Run the REAL compute_local on one abstract kernel; returns {order key: 14-vector of terms}."""
     from yadism.esf import esf as esfmod, conv
     import yadism.coefficient_functions as cf
@@ -197,7 +207,14 @@ def run_compute_local(sy, pto, ren, fact, nf, kernel_type, channel="non-singlet"
         partons = {21: sy.U("w", 21)}
         orders = list(range(1, pto + 1))
     beta = BetaStub(sy)
-    m = mk_manager(sy, pto, ren, fact, nf) if (ren or fact or True) else None
+    if manager is None:
+        m = mk_manager(sy, pto, ren, fact, nf)
+    else:
+        # a manager that has already served other flavour numbers (shared by all points of a run)
+        m = manager
+        fresh = mk_manager(sy, pto, ren, fact, nf)
+        for k_, v_ in fresh.operators.items():
+            m.operators.setdefault(k_, v_)
 
     class Coeff(dict):
         def convolution_point(self):
@@ -443,6 +460,31 @@ def rge_worker(sub, item):
         sub.add(Ob(name, "post", UNDECIDED if type(e).__name__ == "OutOfReach" else "error", "engine", 0, f"{type(e).__name__}: {e} {traceback.format_exc()[-800:]}"))
 
 
+def rge_shared_worker(sub, item):
+    """History: ONE scale-variation manager (as shared by all points of a run) first serves a point
+    with nf_first flavours, then one with nf flavours: the second point's tensors satisfy the RGE
+    identities of nf flavours (projectors, matrices and beta coefficients of THAT number)."""
+    pto, nf_first, nf, kt = item
+    sub.cases += 1
+    sy = H.Sy(extra="a0 tR tF b0 b1")
+    name = f"C05/RGE-invariance/shared-manager/pto={pto}/nf={nf_first} then nf={nf}/{kt}-kernel"
+    try:
+        m = mk_manager(sy, pto, True, True, nf_first)
+        run_compute_local(sy, pto, True, True, nf_first, kt, manager=m)
+        tensors, partons, beta = run_compute_local(sy, pto, True, True, nf, kt, manager=m)
+        sub.add(rge_obligations(sy, pto, nf, kt, tensors, name))
+    except Exception as e:  # noqa
+        import traceback
+
+        sub.add(Ob(name, "post", UNDECIDED if type(e).__name__ == "OutOfReach" else "error", "engine", 0, f"{type(e).__name__}: {e} {traceback.format_exc()[-800:]}"))
+
+
+def sec_rge_shared(rep):
+    from pvc.core import parallel
+
+    parallel(rep, [(2, 3, 5, "quark"), (2, 5, 4, "quark"), (2, 6, 3, "gluon"), (1, 4, 6, "quark")], rge_shared_worker, chunk=1)
+
+
 def sec_rge(rep):
     from yadism.esf import scale_variations as sv, esf as esfmod
     from pvc.core import parallel
@@ -489,6 +531,87 @@ def sec_switches(rep):
 
     items = [(pto, nf, kt) for pto in (3, 2, 1) for nf in (3, 5) for kt in ("quark", "gluon", "intrinsic")]
     parallel(rep, items, switch_worker, chunk=1)
+
+
+def sec_compute_raw(rep):
+    """ScaleVariations.compute_raw (cache invariant): after compute_raw(nf), operators[(label, nf)]
+    exists for every label of the manager's order and is the convolution of THAT label's kernel at
+    THAT nf with the manager's interpolator; entries of other flavour numbers are kept, each kernel
+    is convolved at most once per (label, nf) -- for any request history nf_1, nf_2, ...;
+    fact_matrices(nf) after any history neither raises nor mixes flavour numbers."""
+    from yadism.esf import scale_variations as sv
+    from yadism.coefficient_functions import splitting_functions as split
+
+    rep.under_contract(sv.ScaleVariations.compute_raw)
+    sy = H.Sy(extra="b0 b1")
+    for pto in (1, 2, 3):
+        for seq in ((4, 5), (3, 4, 5, 6, 4, 3), (6, 3)):
+            rep.cases += 1
+            calls = []
+
+            def convolve_operator(rsl, interp):
+                calls.append(rsl)
+                a = np.empty((1, 1), dtype=object)
+                a[0, 0] = sy.U("Conv", str(rsl))
+                return a, a
+
+            class LabelFn:
+                def __init__(s, lab):
+                    s.lab = lab
+
+                def __call__(s, nf):
+                    return ("kernel", s.lab, int(nf))
+
+            ok, detail = True, ""
+            try:
+                labels = [{lab: LabelFn(lab) for lab in table} for table in split.raw_labels]
+                with rebind((sv, "convolve_operator", convolve_operator), (split, "raw_labels", labels), *binds(sy, BetaStub(sy))):
+                    m = sv.ScaleVariations(order=pto, interpolator="INTERP", activate_ren=True, activate_fact=True)
+                    want = [lab for table in labels[:pto] for lab in table]
+                    seen = set()
+                    for nf in seq:
+                        m.compute_raw(nf)
+                        seen.add(nf)
+                        keys = set(m.operators)
+                        exp_keys = {(lab, n) for lab in want for n in seen}
+                        if keys != exp_keys:
+                            ok, detail = False, f"after history {seq[:len(seen)]}: missing {sorted(exp_keys - keys)[:3]} extra {sorted(keys - exp_keys)[:3]}"
+                            break
+                        wrong = [(lab, n) for (lab, n), v in m.operators.items() if repr(v[0, 0]) != repr(sy.U("Conv", str(("kernel", lab, n))))]
+                        if wrong:
+                            ok, detail = False, f"entries not the convolution of their own (label, nf): {wrong[:3]}"
+                            break
+                        fm = m.fact_matrices(nf)  # must not raise
+                    if ok and len(calls) != len(want) * len(set(seq)):
+                        ok, detail = False, f"{len(calls)} convolutions for {len(want)} labels x {len(set(seq))} flavour numbers"
+            except Exception as e:  # noqa
+                ok, detail = False, f"{type(e).__name__}: {e}"
+            rep.add(ob_eval(f"{rep.pid}/compute_raw/invariant(operators[(label,nf)] = convolution of that label at that nf, for every request history)/pto={pto}/nf-sequence={seq}", ok, kind="invariant", detail=detail, inputs={} if ok else {"nf sequence": str(seq), "observed": detail}))
+
+
+def sec_runner_wiring(rep):
+    """Runner.__init__ hands the scale-variation manager the coefficient-function order of the card
+    (PTODIS, not the evolution order PTO) and the two switches; the ESFs of the run share it."""
+    from yadism import runner
+    from yadism.esf import scale_variations as sv
+
+    rep.under_contract(runner.Runner.__init__)
+    for pto_evol in range(3):
+        for ptodis in range(4):
+            for ren, fact in ((True, True), (True, False), (False, True), (False, False)):
+                rep.cases += 1
+                th = H.base_theory(FNS="ZM-VFNS", NfFF=3, PTO=pto_evol, PTODIS=ptodis, RenScaleVar=ren, FactScaleVar=fact)
+                try:
+                    r = runner.Runner(th, H.base_obs())
+                    m = r.configs.managers["sv_manager"]
+                    if not (ren or fact):
+                        ok, detail = (m is None) or (not m.activate_ren and not m.activate_fact), f"manager={m!r}"
+                    else:
+                        ok = isinstance(m, sv.ScaleVariations) and m.order == ptodis and bool(m.activate_ren) == ren and bool(m.activate_fact) == fact and r.configs.theory["pto"] == ptodis and r.configs.theory["pto_evol"] == pto_evol
+                        detail = f"order={getattr(m, 'order', None)} ren={getattr(m, 'activate_ren', None)} fact={getattr(m, 'activate_fact', None)} pto={r.configs.theory['pto']} pto_evol={r.configs.theory['pto_evol']}"
+                except Exception as e:  # noqa
+                    ok, detail = False, repr(e)
+                rep.add(ob_eval(f"C05/Runner.__init__/sv-manager(order = PTODIS={ptodis}, not PTO={pto_evol}; RenScaleVar={ren}, FactScaleVar={fact})", ok, detail=detail, inputs={} if ok else {"PTO": pto_evol, "PTODIS": ptodis, "observed": detail}))
 
 
 def sec_label_moments(rep):
@@ -564,7 +687,7 @@ def run(rep, tier, seed, only=None):
         "one-node grid with formal operators: the code uses the operators only linearly (no operator x operator product is computed at run time), so the identities lift to every grid size",
     )
     rep.stub("eko.beta -> symbolic beta0/beta1", "conv.convolve_vector -> symbolic raw coefficients c_o", "Combiner -> one abstract kernel", "ScaleVariations.operators pre-filled with formal 1x1 operators (compute_raw's cache branch)")
-    for nm, f in (("tables", sec_tables), ("rge", sec_rge), ("switches", sec_switches), ("apply_pdf", sec_apply_pdf), ("labels", sec_label_moments)):
+    for nm, f in (("tables", sec_tables), ("rge", sec_rge), ("rgeshared", sec_rge_shared), ("computeraw", sec_compute_raw), ("switches", sec_switches), ("wiring", sec_runner_wiring), ("apply_pdf", sec_apply_pdf), ("labels", sec_label_moments)):
         if only and only not in nm:
             continue
         rep.add(guarded(f"C05/{nm}", lambda f=f: (f(rep), [])[1]))
